@@ -39,6 +39,13 @@ func randRunFan(r *rand.Rand, id string, allowCmd bool) RunFan {
 	rf.Pwm0 = r.Intn(256)
 	rf.Mode0 = []int{0, 1, 2, 2, 3, 5}[r.Intn(6)]
 	rf.Rest = randRest(r)
+	if rf.Spec.Kind == "hwmon" && r.Intn(2) == 0 {
+		// a fan whose maximum is below 255 (configured): "full speed" is still PWM 255
+		rf.Spec.CfgMax = ip(120 + r.Intn(135))
+		if r.Intn(2) == 0 {
+			rf.Spec.CfgMin = ip(r.Intn(100))
+		}
+	}
 	return rf
 }
 
@@ -210,6 +217,9 @@ func runC16Scenario(rec *Recorder, r *rand.Rand, parallel bool, nfMax int) {
 	if nfMax > 2 {
 		nf = 2 + r.Intn(nfMax-1)
 	}
+	if os.Getenv("VERIF_EXACTFANS") != "" {
+		nf = nfMax
+	}
 	cfg := RunCfg{Parallel: parallel, FanResponseDelay: 0}
 	ids := []string{"f1", "f2", "f3", "f4"}
 	for k := 0; k < nf; k++ {
@@ -223,6 +233,15 @@ func runC16Scenario(rec *Recorder, r *rand.Rand, parallel bool, nfMax int) {
 		rf.Spec.N = 10
 		rf.Spec.Alg = AlgSpec{T: "direct"}
 		rf.Quant = []int{51, 64, 85}[r.Intn(3)]
+		if r.Intn(3) == 0 { // pwmMap given in the configuration: no sweep, but hwmon fans still measure their RPM curve
+			q := rf.Quant
+			m := map[int]int{}
+			for v := 0; v <= 255; v += q {
+				m[v] = v
+			}
+			m[255] = 255
+			rf.Spec.CfgMap = m
+		}
 		rf.Theta = r.Intn(60)
 		rf.Pwm0 = r.Intn(256)
 		rf.Mode0 = 2
